@@ -402,7 +402,7 @@ class C01Plan(RunPlan):
             "distinct = distinct event-log digests among non-trivial runs.")
 
     def params(self, tier):
-        return {"late_imports": list(ALL_MODULES), "faults": True}
+        return {"late_imports": list(ALL_MODULES), "faults": True, "long": tier == "thorough"}
 
 
 PLANS = {"C01": C01Plan}
